@@ -90,7 +90,14 @@ theorem run_uses_composed (inp : Input) (r : Result) (h : run inp = .ok r) :
       | (cases hr; done)
       | (cases hr; exact ⟨rfl, rfl, rfl, rfl, by simp only; omega⟩)
   · cases h
-  · split at h <;> cases h
+  · rename_i hno _
+    exact absurd h (fun e => hno r e)
+
+/-- Non-vacuity: the model returns a result on the worked P222 input. -/
+example : (match run exampleInput with
+    | .ok r => r.tlinear == M3.one && r.siteMapping == [0, 1, 2, 3] && r.stdPos.length == 4
+    | _ => false) = true := by
+  decide +kernel
 
 /-- `Transformation::transform_cell` for an integer matrix `M` with `det M ≠ 0` (the model
 `transformCellPos` / `transformCellMap`, lattice points from the Smith normal form):
@@ -163,5 +170,24 @@ example :
     transformCellPos Centering.C.linear [⟨0, 0, 0⟩, ⟨1 / 4, 1 / 3, 1 / 5⟩] =
       [⟨0, 0, 0⟩, ⟨1 / 2, 1 / 2, 0⟩, ⟨7 / 24, 1 / 24, 1 / 5⟩, ⟨19 / 24, 13 / 24, 1 / 5⟩] := by
   decide +kernel
+
+/-- The standardized cell returned by the model of `StandardizedCell::new` has `|det C|` sites per
+site of the primitive standardized cell, each primitive site exactly `det C` times in `site_mapping`. -/
+theorem std_cell_sites (inp : Input) (r : Result) (h : run inp = .ok r) :
+    r.stdPos.length = r.primPos.length * r.convLinear.det.natAbs ∧
+    r.siteMapping.length = r.stdPos.length ∧
+    ∀ i, i < r.primPos.length → r.siteMapping.count i = r.convLinear.det.natAbs := by
+  obtain ⟨_, _, h3, h4, h5⟩ := run_uses_composed inp r h
+  have := transform_cell_complete r.convLinear (by omega) r.primPos
+  rw [h3, h4]
+  exact ⟨this.1, this.2.1, this.2.2.1⟩
+
+example : ∃ r, run exampleInput = .ok r := by
+  have h : (run exampleInput).isOk = true := by decide +kernel
+  cases hr : run exampleInput with
+  | ok r => exact ⟨r, rfl⟩
+  | err _ _ => rw [hr] at h; cases h
+  | panic _ _ => rw [hr] at h; cases h
+  | mismatch _ => rw [hr] at h; cases h
 
 end Moyo.C05
